@@ -53,6 +53,8 @@ pure gasHash() Bytes = "\xcf\x76\xe2\x8b\xd0\x06\x2c\x4a\x47\x8e\xe3\x55\x61\x01
 pure akeys0(s Store) L_NB = deser_L_NB(s.get("alphabet"))
 pure thr(s Store) Int = len(akeys0(s)) * 2 / 3 + 1
 pure voted(k Int) Int = asint(cres("Vote", k))
+// the voter of an invocation: the witnessed Alphabet key found by the k-th InnerRingInvoker call
+pure voter(k Int) Bytes = asbytes(cres("InnerRingInvoker", k))
 
 func Cheque(id, user, amount, lockAcc)
   ensures [C17] notaryDisabled(old(store)) ==> xcalls("Vote").len == old(xcalls("Vote")).len + 1
@@ -70,7 +72,7 @@ func Cheque(id, user, amount, lockAcc)
   // without Notary nothing but the ballot list is written
   ensures [C17] forall k Bytes {store.opt(k)} :: k != "ballots" ==> store.opt(k) == old(store).opt(k)
   // the vote is cast for, and a fired decision clears, the ballot of this decision id (votes for different ids never mix)
-  ensures [C17] xcalls("Vote").len == old(xcalls("Vote")).len + 1 ==> exists v Bytes :: xcalls("Vote")[old(xcalls("Vote")).len] == ev_Vote(id, v)
+  ensures [C17] xcalls("Vote").len == old(xcalls("Vote")).len + 1 ==> xcalls("Vote")[old(xcalls("Vote")).len] == ev_Vote(id, voter(old(xcalls("InnerRingInvoker")).len))
   ensures [C17] xcalls("RemoveVotes").len == old(xcalls("RemoveVotes")).len || (xcalls("RemoveVotes").len == old(xcalls("RemoveVotes")).len + 1
         && xcalls("RemoveVotes")[old(xcalls("RemoveVotes")).len] == ev_RemoveVotes(id))
 
@@ -120,7 +122,7 @@ func SetConfig(id, key, val)
   ensures [C20] notifs == old(notifs) ==> store.opt("config" ++ key) == old(store).opt("config" ++ key)
   ensures [C17] forall k Bytes {store.opt(k)} :: k != "ballots" && k != "config" ++ key ==> store.opt(k) == old(store).opt(k)
   // the vote is cast for, and a fired decision clears, the ballot of this decision id (votes for different ids never mix)
-  ensures [C17] xcalls("Vote").len == old(xcalls("Vote")).len + 1 ==> exists v Bytes :: xcalls("Vote")[old(xcalls("Vote")).len] == ev_Vote(id, v)
+  ensures [C17] xcalls("Vote").len == old(xcalls("Vote")).len + 1 ==> xcalls("Vote")[old(xcalls("Vote")).len] == ev_Vote(id, voter(old(xcalls("InnerRingInvoker")).len))
   ensures [C17] xcalls("RemoveVotes").len == old(xcalls("RemoveVotes")).len || (xcalls("RemoveVotes").len == old(xcalls("RemoveVotes")).len + 1
         && xcalls("RemoveVotes")[old(xcalls("RemoveVotes")).len] == ev_RemoveVotes(id))
 
@@ -147,7 +149,7 @@ func AlphabetUpdate(id, args)
   ensures [C17] !notaryDisabled(old(store)) ==> W(alphabet())
   ensures [C17] forall k Bytes {store.opt(k)} :: k != "ballots" && k != "alphabet" ==> store.opt(k) == old(store).opt(k)
   // the vote is cast for, and a fired decision clears, the ballot of this decision id (votes for different ids never mix)
-  ensures [C17] xcalls("Vote").len == old(xcalls("Vote")).len + 1 ==> exists v Bytes :: xcalls("Vote")[old(xcalls("Vote")).len] == ev_Vote(id, v)
+  ensures [C17] xcalls("Vote").len == old(xcalls("Vote")).len + 1 ==> xcalls("Vote")[old(xcalls("Vote")).len] == ev_Vote(id, voter(old(xcalls("InnerRingInvoker")).len))
   ensures [C17] xcalls("RemoveVotes").len == old(xcalls("RemoveVotes")).len || (xcalls("RemoveVotes").len == old(xcalls("RemoveVotes")).len + 1
         && xcalls("RemoveVotes")[old(xcalls("RemoveVotes")).len] == ev_RemoveVotes(id))
   loop 0
@@ -161,7 +163,7 @@ func InnerRingCandidateRemove(key)
         (!store.has("candidates" ++ key) == (voted(old(xcalls("Vote")).len) >= thr(old(store))))
   ensures [C17] W(key) ==> !store.has("candidates" ++ key)
   // the vote is cast for, and a fired decision clears, the ballot of this decision: sha256(key ++ "delete")
-  ensures [C17] xcalls("Vote").len == old(xcalls("Vote")).len + 1 ==> exists v Bytes :: xcalls("Vote")[old(xcalls("Vote")).len] == ev_Vote(sha256(key ++ "delete"), v)
+  ensures [C17] xcalls("Vote").len == old(xcalls("Vote")).len + 1 ==> xcalls("Vote")[old(xcalls("Vote")).len] == ev_Vote(sha256(key ++ "delete"), voter(old(xcalls("InnerRingInvoker")).len))
   ensures [C17] xcalls("RemoveVotes").len == old(xcalls("RemoveVotes")).len || (xcalls("RemoveVotes").len == old(xcalls("RemoveVotes")).len + 1
         && xcalls("RemoveVotes")[old(xcalls("RemoveVotes")).len] == ev_RemoveVotes(sha256(key ++ "delete")))
   ensures [C17] forall k Bytes {store.opt(k)} :: k != "ballots" && k != "candidates" ++ key ==> store.opt(k) == old(store).opt(k)
